@@ -16,7 +16,7 @@ import json
 from pyvc.report import Check
 from pyvc import ground
 from contracts import astwriter
-from bounded import astnative
+from bounded import astnative, trivianative
 
 
 def run(tier, seed):
@@ -64,7 +64,27 @@ def run(tier, seed):
                     v['confirmed'] = True
             if not chk.violations:
                 chk.violation('BOUNDED:c10/formatter output is not canonical', {'witness': nat['bad'][:4]}, True)
-    chk.native_witness = nat.get('bad')
+    tri = trivianative.run(5 if big else 4, tuple(range(9)) if big else (0, 2, 3))
+    if tri.get('timeout') or tri.get('error'):
+        chk.undecide('BOUNDED:c10/trivia-run enumeration did not finish: %s' % (tri.get('error') or 'timeout'))
+    else:
+        if chk.bounded:
+            chk.bounded['rule'] += ('.  Plus EXHAUSTIVE: all %d trivia runs of up to %d symbols over {blank, tab, LF, CRLF, -- line, // line, comment with a '
+                                    'trailing blank} at the start of the code, between statements at depth 0 and depth 2, and at the end of the code: same '
+                                    'output clauses, fixed point, and one output per class of runs that differ only in leading / trailing blanks of '
+                                    'their lines (%d classes)' % (tri['runs'], tri['n'], tri['groups']))
+            chk.bounded['evaluations'] += tri['evaluations']
+            chk.bounded['failures'] += len(tri['bad10'])
+        if tri['bad10'] and not nat.get('bad'):
+            for v in chk.violations:
+                if not v['confirmed']:
+                    p = json.load(open(v['replay']))
+                    p['native_witness'] = tri['bad10'][:2]
+                    json.dump(p, open(v['replay'], 'w'), indent=1, default=str)
+                    v['confirmed'] = True
+            if not chk.violations:
+                chk.violation('BOUNDED:c10/formatter output is not canonical (trivia-run enumeration)', {'witness': tri['bad10'][:4]}, True)
+    chk.native_witness = (nat.get('bad') or []) + (tri.get('bad10') or [])
     chk.trust('control-path enumeration with dataflow events over the real handlers (pyvc/effects.py), correlated branches on the same flag respected; '
               'reference grammar, reference tokenizer and an independent depth counter (bounded part)')
     chk.assume('the regular-expression substitution pipeline is outside the reach of the solvers (replace_all chains): bounded only')
